@@ -41,52 +41,52 @@ var commonAssumptions = []string{
 var properties = []Property{
 	{ID: "C01", Title: "expressions evaluate to the defined value", Level: "other",
 		Rules:       []string{"R-OPMAP", "R-OPTABLE", "R-DIVGUARD", "R-UNARY", "R-MATCHCELLS", "R-MEMBERSHIP", "R-LOGICCELLS", "R-CONSTDEDUP", "R-SCRIPTINDEX", "R-FOLDRESET"},
-		Explanation: "Static table extraction over the type-checked AST: the compiler's operator→opcode map and every cell of the VM's five operator tables (Go operator, operand order, result type, sibling coverage, singleton pushes, division guard) are compared with the tables the language definition gives.",
+		Explanation: "Static table extraction over the type-checked AST: the compiler's operator→opcode map and every cell of the VM's five operator tables (Go operator, operand order, result type, sibling coverage, singleton pushes, division guard) are compared with the tables the language definition gives. Cell-level rules add the unary operators, the regexp-match cells, membership (`in` visits every element and compares type and printed form), the && / || cells, the constant pool's merge condition and the optimizer's window reset.",
 		NotDecided:  "values Go arithmetic produces; cells computed by calls other than power/substring (regexp match); dispatch on operand types beyond C05's clause; nesting; integer % by zero (a recovered panic, which the property allows as an error).",
 		Assumptions: commonAssumptions},
 	{ID: "C02", Title: "control flow", Level: "other",
 		Rules:       []string{"R-PATCHALL", "R-JUMPSET", "R-HANDLERS", "R-LOOPHEAD", "R-ITERNEXT", "R-MEMBERSHIP", "R-SWITCHDEFAULT", "R-NOMUT"},
-		Explanation: "SSA path analysis of the compiler: every placeholder jump is back-patched on every successful path, loops jump back to a head recorded before the re-executed code, the jump opcode set is the same in VM/optimizer/compiler, every opcode has a handler and the return opcode leaves the interpreter.",
+		Explanation: "SSA path analysis of the compiler: every placeholder jump is back-patched on every successful path, loops jump back to a head recorded before the re-executed code, the jump opcode set is the same in VM/optimizer/compiler, every opcode has a handler and the return opcode leaves the interpreter. The foreach handler advances its cursor once per cycle, membership loops have no early exit on a non-match, and a switch's default arm is compiled after every case.",
 		NotDecided:  "that patched offsets are the right ones (values computed while Prepare runs), order of arms, element order of foreach.",
 		Assumptions: commonAssumptions},
 	{ID: "C03", Title: "optimizer transparency", Level: "other",
 		Rules:       []string{"R-JOINPH", "R-FOLDAGREE", "R-JUMPSET", "R-EMITLEN", "R-NOINJECT", "R-FLAGONLY", "R-FOLDRESET", "R-OPTCLOSED"},
-		Explanation: "Structural soundness conditions of the peephole optimizer: every forward label is outside every folding window (placeholder or preceded by an unconditional jump) and the folder resets its window on unnamed opcodes; jump sets agree between VM, NOP removal, dead-code pass and compiler; operand presence agrees; the optimizer switch is not script-visible.",
+		Explanation: "Structural soundness conditions of the peephole optimizer: every forward label is outside every folding window (placeholder or preceded by an unconditional jump) and the folder resets its window on unnamed opcodes; jump sets agree between VM, NOP removal, dead-code pass and compiler; operand presence agrees; the optimizer switch is not script-visible. The optimizer performs exactly the enumerated rewrites (a new one is reported as not decided).",
 		NotDecided:  "observational equivalence of optimized and unoptimized programs in general.",
 		Assumptions: commonAssumptions},
 	{ID: "C13", Title: "invalid scripts are rejected", Level: "other",
 		Rules:       []string{"R-NILERR", "R-ERRPROP", "R-BLOCKOPEN", "R-TOPSTOP", "R-TERNGUARD", "R-LOCALGUARD", "R-EOFSENTINEL", "R-NAMETOKEN", "R-FUNCFLAG", "R-SEENTOKEN"},
-		Explanation: "SSA dataflow over the parser and compiler: a parse function returns nil only after an error was recorded (must-dataflow with callee summaries, through the registered parselet tables), Parse turns a non-empty error list into an error, every error-valued call has its error looked at and never replaced by nil, blocks are parsed only after '{' was demanded, the top-level loop stops only at end of input, nested ternaries and `local` outside functions are rejected.",
+		Explanation: "SSA dataflow over the parser and compiler: a parse function returns nil only after an error was recorded (must-dataflow with callee summaries, through the registered parselet tables), Parse turns a non-empty error list into an error, every error-valued call has its error looked at and never replaced by nil, blocks are parsed only after '{' was demanded, the top-level loop stops only at end of input, nested ternaries and `local` outside functions are rejected. Names are only taken from tokens tested to be identifiers, the in-function flag is cleared on every exit, and the parser never steps over a token it has not looked at (identified beforehand as one kind on every path, or examined afterwards).",
 		NotDecided:  "that each individual syntax check is the right check (needs a grammar as oracle).",
 		Assumptions: commonAssumptions},
 	{ID: "C04", Title: "host object fields", Level: "other",
 		Rules:       []string{"R-NONNIL", "R-RUNRESET", "R-LOOKUPORDER", "R-KINDTABLE", "R-COMMAOK", "R-PUREARGS"},
-		Explanation: "Conversion of host fields is total and never yields a nil object (SSA nil-source analysis with function summaries over every Object-returning function and every push/store sink), every run and nested call starts from an empty field cache, and names resolve as variable, then field, then null (dominance in the resolver).",
+		Explanation: "Conversion of host fields is total and never yields a nil object (SSA nil-source analysis with function summaries over every Object-returning function and every push/store sink), every run and nested call starts from an empty field cache, and names resolve as variable, then field, then null (dominance in the resolver). The reflect.Kind → object table is the documented one, comma-ok results are used only where ok was tested, and no built-in reorders or writes an array it was given (a field's array is shared with the field cache).",
 		NotDecided:  "lossless conversion per kind, order and length of arrays, nested maps: values produced by reflection at run time.",
 		Assumptions: commonAssumptions},
 	{ID: "C05", Title: "one notion of truth", Level: "other",
 		Rules:       []string{"R-IDENTITY", "R-LOGICDISPATCH", "R-TRUTHDEF", "R-TRUTHSITES", "R-RUNEXEC", "R-LOGICCELLS", "R-UNARY", "R-OPTCLOSED", "R-CONDDIRECT"},
-		Explanation: "No identity comparison of objects anywhere in the library (SSA; matcher self-tested on a built-in example), && and || are reachable for every operand type pair (clause order of the dispatcher against the extracted tables), every True() body is the language's definition, consumers of truth call True(), and Run is True() of Execute's object with Execute's error.",
+		Explanation: "No identity comparison of objects anywhere in the library (SSA; matcher self-tested on a built-in example), && and || are reachable for every operand type pair (clause order of the dispatcher against the extracted tables), every True() body is the language's definition, consumers of truth call True(), and Run is True() of Execute's object with Execute's error. The compiler translates conditions and arms of if / while / ternary / switch exactly as the node's own fields and never writes into the tree; `!` is decided by the operand's type; the optimizer's rewrites are the enumerated ones.",
 		NotDecided:  "the values of comparisons themselves.",
 		Assumptions: commonAssumptions},
 	{ID: "C08", Title: "no crash of the host", Level: "other",
-		Rules:       []string{"R-RECOVER", "R-NONNIL", "R-RECURSION", "R-ERRPROP", "R-FRAMERESTORE", "R-MACHINENIL", "R-COMMAOK", "R-LOCKPAIR", "R-FOLDSAFE", "R-USEBEFORECHECK", "R-PREPAREFRESH", "R-INDEXRESULT"},
-		Explanation: "Execute recovers and sets both results, Run does nothing that can panic afterwards, no nil object escapes, unbounded recursion reachable from the API is enumerated (Tarjan SCCs of the VTA call graph; each needs a depth guard), errors are propagated, and the machine is restored after a failed call so the evaluator remains usable.",
-		NotDecided:  "memory exhaustion; panics inside the recover region (they become errors, which the property allows); panics in Prepare/Dump outside recursion (see R-PANICSITES when built); host-supplied Object implementations.",
+		Rules:       []string{"R-RECOVER", "R-NONNIL", "R-RECURSION", "R-ERRPROP", "R-FRAMERESTORE", "R-MACHINENIL", "R-COMMAOK", "R-LOCKPAIR", "R-FOLDSAFE", "R-USEBEFORECHECK", "R-PREPAREFRESH", "R-INDEXRESULT", "R-PANICSITES"},
+		Explanation: "Execute recovers and sets both results, Run does nothing that can panic afterwards, no nil object escapes, unbounded recursion reachable from the API is enumerated (Tarjan SCCs of the VTA call graph; each needs a depth guard), errors are propagated, and the machine is restored after a failed call so the evaluator remains usable. API methods touch the machine only where it exists, a failed Prepare leaves no stale machine behind, every Lock is released on every path, a position from strings.Index is used as a bound only where -1 was excluded, a constant division by zero is not folded. Outside the recover (Prepare with lexer, parser, compiler, machine construction and optimizer; Dump; Run's tail; the other API methods) every index, slice expression, unchecked type assertion and integer division is discharged: proven from the dominating comparisons (difference constraints with loop-counter induction and identification of repeated loads), or recognised as an index handed out by package sort or a position inside well-formed bytecode; there is no explicit panic there.",
+		NotDecided:  "memory exhaustion; panics inside the recover region (they become errors, which the property allows); nil-pointer dereferences and nil-map writes outside the recover other than those R-NONNIL / R-MACHINENIL / R-COMMAOK cover; panics raised inside the standard library on arguments it rejects; host-supplied Object implementations.",
 		Assumptions: commonAssumptions},
 	{ID: "C09", Title: "deadline and cancellation", Level: "other",
 		Rules:       []string{"R-POLL", "R-CTXFLOW"},
-		Explanation: "The non-blocking poll of the VM's context dominates the opcode read and lies on every back edge of the dispatch loop (dominator analysis), its ready edge returns an error, inner loops of the interpreter are classified by their bound, functions execute through the same polled loop, and the context flows SetContext → Prepare → VM with no other writer.",
+		Explanation: "The non-blocking poll of the VM's context dominates the opcode read and lies on every back edge of the dispatch loop (dominator analysis), its ready edge returns an error, inner loops of the interpreter are classified by their bound, functions execute through the same polled loop, and the context flows SetContext → Prepare → VM with no other writer. Every loop in every function the interpreter reaches is bounded by data that already exists (len, a reflect size, an operand); a trip count taken from a script value is reported.",
 		NotDecided:  "the length of the delay: a single instruction (regexp match, sort, a huge range) may run long; Go scheduling.",
 		Assumptions: commonAssumptions},
 	{ID: "C06", Title: "functions and scopes", Level: "other",
 		Rules:       []string{"R-SCOPEPAIR", "R-SCOPERESTORE", "R-BINDINNER", "R-FRAMERESTORE", "R-LOCALGUARD", "R-CALLPROTO", "R-SCOPESEARCH", "R-SCOPEFRESH"},
-		Explanation: "SSA dominance and call-graph checks on the call protocol: the callee's scope is opened before parameters are bound, binding goes to the innermost scope, scopes and the swapped VM fields are restored by deferred code (by absolute depth / to the pre-swap values) on every exit, loops open and close their scope, `local` only inside functions.",
+		Explanation: "SSA dominance and call-graph checks on the call protocol: the callee's scope is opened before parameters are bound, binding goes to the innermost scope, scopes and the swapped VM fields are restored by deferred code (by absolute depth / to the pre-swap values) on every exit, loops open and close their scope, `local` only inside functions. A built-in wins over a user function and the arity check applies to the function actually called; scope walks go innermost first; every scope pushed is a freshly made map and the stack is only ever truncated.",
 		NotDecided:  "innermost-first lookup order and the redirect of assignments to an existing local (loop direction over run-time data); results of recursion; built-in-before-user lookup order.",
 		Assumptions: commonAssumptions},
 	{ID: "C07", Title: "no hidden state between runs", Level: "other",
 		Rules:       []string{"R-STATECENSUS", "R-RUNRESET", "R-FRAMERESTORE", "R-SCOPERESTORE", "R-NOMUT", "R-PREPAREFRESH", "R-SCOPEFRESH"},
-		Explanation: "Ownership/effect argument: a census of every struct field, map and package variable written by code reachable from the interpreter (VTA call graph) must fall into a classified group, and each class's obligation is checked: reset at interpreter entry, restored by defer on every exit, scope stack restored by depth, mutation only on private copies.",
+		Explanation: "Ownership/effect argument: a census of every struct field, map and package variable written by code reachable from the interpreter (VTA call graph) must fall into a classified group, and each class's obligation is checked: reset at interpreter entry, restored by defer on every exit, scope stack restored by depth, mutation only on private copies. Scopes are never recycled: each one pushed is a freshly made map.",
 		NotDecided:  "cost growth other than through the scope stack and value stack; state inside host-supplied objects and functions.",
 		Assumptions: commonAssumptions},
 	{ID: "C15", Title: "numbers, strings and booleans are values", Level: "other",
@@ -107,42 +107,42 @@ var properties = []Property{
 		}},
 	{ID: "C11", Title: "concurrency", Level: "other",
 		Rules:       []string{"R-GLOBALS", "R-LOCK", "R-NOMUT", "R-NONDETSRC", "R-LOCKPAIR"},
-		Explanation: "Race-freedom argument for the API the property names: Run holds the evaluator's mutex around Execute on every path and Prepare holds it by defer (serialisation gives the one-at-a-time order); every package-level variable is either never written after initialisation or only accessed under a package-level mutex (must-held dataflow); shared singletons and constants are immutable (R-NOMUT); the library starts no goroutines.",
+		Explanation: "Race-freedom argument for the API the property names: Run holds the evaluator's mutex around Execute on every path and Prepare holds it by defer (serialisation gives the one-at-a-time order); every package-level variable is either never written after initialisation or only accessed under a package-level mutex (must-held dataflow); shared singletons and constants are immutable (R-NOMUT); the library starts no goroutines. A package variable handed by address to a method (sync.Pool, sync.Map) counts as written: objects travelling through it are shared between evaluators.",
 		NotDecided:  "Execute, SetVariable, GetVariable called concurrently (not promised by the property); host functions and host objects.",
 		Assumptions: commonAssumptions},
 	{ID: "C12", Title: "precedence and grouping", Level: "other",
 		Rules:       []string{"R-PRECTABLE", "R-PRATT", "R-INFIXSET", "R-TERNGUARD", "R-DIVCONTEXT"},
-		Explanation: "The four facts that are the grouping semantics of a Pratt parser are read from the code: the order of the binding powers against the documented chain, strictness of the loop comparison, capture of the operator's binding power before the parser advances, agreement between the infix table and the precedence table; plus the nested-ternary guard.",
+		Explanation: "The four facts that are the grouping semantics of a Pratt parser are read from the code: the order of the binding powers against the documented chain, strictness of the loop comparison, capture of the operator's binding power before the parser advances, agreement between the infix table and the precedence table; plus the nested-ternary guard. The token kinds after which `/` divides are exactly IDENT, INT, FLOAT, `)` and `]`.",
 		NotDecided:  "the '.' rewrite of field access, postfix ++/-- being separate statements, what the compiler does with the tree.",
 		Assumptions: commonAssumptions},
 	{ID: "C14", Title: "literals and layout", Level: "other",
 		Rules:       []string{"R-LEXPROGRESS", "R-EOFSENTINEL", "R-ESCAPES", "R-CONSTDEDUP", "R-DIVCONTEXT", "R-COMMENTCTX", "R-NUMBASE", "R-TOKENPROGRESS"},
-		Explanation: "Narrow claim. Tokenisation terminates for every input: the advance function moves forward unconditionally, every lexer loop advances on every cycle and has an exit taken at the end-of-input sentinel (loop conditions are evaluated with the sentinel substituted, predicates included), and the lexer does not recurse. End of input is decided by position, not by a character value. The string reader's escape table is the language's.",
-		NotDecided:  "what regexp and numeric literals denote, the division-vs-regexp decision, that layout and comments never change the token sequence: character-level value semantics.",
+		Explanation: "Narrow claim. Tokenisation terminates for every input: the advance function moves forward unconditionally, every lexer loop advances on every cycle and has an exit taken at the end-of-input sentinel (loop conditions are evaluated with the sentinel substituted, predicates included), and the lexer does not recurse. End of input is decided by position, not by a character value. The string reader's escape table is the language's. Every return of NextToken has consumed a character (readers are entered under their own loop predicate); `//` starts a comment independent of the previous token; `/` divides exactly after an operand-ending token; integer and decimal text is read in base 10 with 64 bits; the constant pool keeps literals of different kinds apart.",
+		NotDecided:  "what regexp literals denote character by character, and that layout and comments never change the token sequence in general: character-level value semantics.",
 		Assumptions: commonAssumptions},
 	{ID: "C16", Title: "containers", Level: "other",
 		Rules:       []string{"R-SCRIPTINDEX", "R-HASHKEY", "R-MAPORDER", "R-NOMUT", "R-ITERNEXT", "R-RANGE", "R-POPORDER", "R-MEMBERSHIP", "R-LENKIND"},
-		Explanation: "Every slice index computed from a script value is proven within bounds from the dominating comparisons (difference constraints over canonical len terms); every HashKey() keeps the type and the value of the key; hash entries are iterated in a total order (sorted with a comparator that identifies the entry); iteration works on a private cursor so every entry is visited exactly once even in nested loops.",
+		Explanation: "Every slice index computed from a script value is proven within bounds from the dominating comparisons (difference constraints over canonical len terms); every HashKey() keeps the type and the value of the key; hash entries are iterated in a total order (sorted with a comparator that identifies the entry); iteration works on a private cursor so every entry is visited exactly once even in nested loops. Ranges are built start to end inclusive, literals pop their elements in reverse push order, membership compares type and printed form over every element, len counts runes/elements.",
 		NotDecided:  "element order from the stack, len, membership: values.",
 		Assumptions: commonAssumptions},
 	{ID: "C19", Title: "determinism", Level: "other",
 		Rules:       []string{"R-MAPORDER", "R-NONDETSRC", "R-PREPAREFRESH", "R-NOMUT"},
-		Explanation: "Every iteration over a Go map in the library is classified as order-insensitive, collected-then-totally-sorted, or listed with a reason; there is no goroutine, multi-way select, pointer printing or randomness in the library; Prepare starts from empty compile outputs.",
+		Explanation: "Every iteration over a Go map in the library is classified as order-insensitive, collected-then-totally-sorted, or listed with a reason; there is no goroutine, multi-way select, pointer printing or randomness in the library; Prepare starts from empty compile outputs. No stack trace, goroutine or process identity reaches a result; a listed order-insensitive map loop must run to exhaustion.",
 		NotDecided:  "nothing structural remains; what remains is values (and now()/time()/getenv(), which the property excludes).",
 		Assumptions: commonAssumptions},
 	{ID: "C17", Title: "built-in contracts", Level: "other",
 		Rules:       []string{"R-ARGGUARD", "R-PUREARGS", "R-NUMORDER", "R-LENKIND", "R-TIMEFIELDS", "R-USEBEFORECHECK", "R-JOINSHAPE", "R-NUMBASE"},
-		Explanation: "Narrow claim. Totality on wrong arity/type: every args[k] and every unchecked assertion of an argument is guarded by a dominating length / Type() test (abstract interpretation over length sets and type facts, with helper functions checked at their call sites). Inputs unchanged: no built-in stores into, sorts in place or mutates anything reachable from its arguments. min/max/between: no ordering by printed form is reachable when both arguments are numbers, the numeric helper computes left < right, min returns the smaller and max the larger argument, between is false exactly when v < lo or hi < v.",
-		NotDecided:  "every value-level contract: join(split(s,d),d) == s, sort's permutation property, conversions, time decomposition, string helpers.",
+		Explanation: "Narrow claim. Totality on wrong arity/type: every args[k] and every unchecked assertion of an argument is guarded by a dominating length / Type() test (abstract interpretation over length sets and type facts, with helper functions checked at their call sites). Inputs unchanged: no built-in stores into, sorts in place or mutates anything reachable from its arguments. min/max/between: no ordering by printed form is reachable when both arguments are numbers, the numeric helper computes left < right, min returns the smaller and max the larger argument, between is false exactly when v < lo or hi < v. join only concatenates element text and separator, places separators by position and does not post-process its result; int/float read base 10 / 64 bits; the time built-ins call the time method of the same name; len counts runes/elements.",
+		NotDecided:  "every value-level contract: split and the join/split round trip as a whole, sort's permutation property, conversions, string helpers.",
 		Assumptions: commonAssumptions},
 	{ID: "C20", Title: "front ends", Level: "other",
 		Rules:       []string{"R-RUNEXEC", "R-ENVSHARE", "R-VOIDPUSH", "R-FLAGONLY", "R-NOINJECT", "R-CTXFLOW", "R-DRIVER", "R-POPORDER", "R-SCOPERESTORE", "R-LOCKSET", "R-FMTCONST"},
-		Explanation: "Narrow claim. Run is True() of Execute's object with Execute's error; the API methods pass their own arguments to the one environment the machine was built on; call results are pushed exactly when not void; the NoOptimize flag guards only the optimizer switch; the library injects no variables; the context flows SetContext → Prepare → VM; the command-line driver sets the context before Prepare, plumbs -no-optimizer and the decoded JSON document, reports type/value/truth of Execute's result and recovers panics.",
+		Explanation: "Narrow claim. Run is True() of Execute's object with Execute's error; the API methods pass their own arguments to the one environment the machine was built on; call results are pushed exactly when not void; the NoOptimize flag guards only the optimizer switch; the library injects no variables; the context flows SetContext → Prepare → VM; the command-line driver sets the context before Prepare, plumbs -no-optimizer and the decoded JSON document, reports type/value/truth of Execute's result and recovers panics. Only Prepare and Run take the evaluator's mutex (a host function may call the other methods during Run); printf-style calls have constant formats, so a result's text is never re-interpreted; call arguments are popped in reverse push order.",
 		NotDecided:  "argument order of host calls (index arithmetic over run-time counts), what the driver prints character by character, the lex/parse sub-commands' output.",
 		Assumptions: commonAssumptions},
 	{ID: "C18", Title: "well-formed code", Level: "other",
-		Rules:       []string{"R-EMITLEN", "R-HANDLERS", "R-PATCHALL", "R-JOINPH", "R-JUMPSET", "R-OPBOUNDARY", "R-NARROW", "R-CONSTDEDUP", "R-FOLDRESET", "R-BODYSTATE", "R-OPTCLOSED"},
-		Explanation: "Emitter-side structural checks: operand presence agrees with code.Length at every emit site and handler, every opcode is handled, every placeholder is patched, every forward label is followed by an instruction, jump sets agree, opcodes are only read at instruction pointers, 16-bit operands are range-checked.",
+		Rules:       []string{"R-EMITLEN", "R-HANDLERS", "R-PATCHALL", "R-JOINPH", "R-JUMPSET", "R-OPBOUNDARY", "R-NARROW", "R-CONSTDEDUP", "R-FOLDRESET", "R-BODYSTATE", "R-OPTCLOSED", "R-CONSTREF"},
+		Explanation: "Emitter-side structural checks: operand presence agrees with code.Length at every emit site and handler, every opcode is handled, every placeholder is patched, every forward label is followed by an instruction, jump sets agree, opcodes are only read at instruction pointers, 16-bit operands are range-checked. Compiler state reset for a function body is restored after it (so the implicit return is decided on the body just compiled), the optimizer removes exactly NOPs, and its constant window is reset, not trimmed. Every instruction whose handler indexes the constant table is emitted with the index the constant pool returned.",
 		NotDecided:  "stack balance and jump targets of a given emitted program (properties of Prepare's output).",
 		Assumptions: commonAssumptions},
 }
